@@ -7,7 +7,7 @@ HERE = os.path.dirname(os.path.dirname(os.path.abspath(__file__)))
 # id -> (technique, level text, level note, DESIGN section)
 P = {
  "C01": ("grammar-based + mutation + raw fuzzing with a crash/abort oracle; exhaustive built-in x boundary-pool enumeration; libFuzzer pipeline target (thorough)",
-         "Exploration: every pipeline stage (parse, AST conversion with/without comments, statement evaluation, portability validation, serialisation, stringification, error rendering, formatting at several widths, the WASM formatting driver) is run on enumerated built-in calls over a boundary pool and on generated / mutated / random sources and JSON inputs; a panic, abort or an error span outside its own source is a violation. Generated search is the right level because the claim is universal over inputs and a single counterexample is conclusive.",
+         "Exploration: every pipeline stage (parse, AST conversion with/without comments, statement evaluation, portability validation, serialisation, stringification, error rendering, formatting at several widths, the WASM formatting driver) is run on enumerated built-in calls over a boundary pool and on generated / mutated / random sources and JSON inputs; a panic, abort or an error span outside its own source is a violation, and so is a parse that needs more than a fixed budget of parser rule calls (a step count, not a clock) for a text of a few hundred bytes. Generated search is the right level because the claim is universal over inputs and a single counterexample is conclusive.",
          "Worker processes with a crash journal attribute aborts; resource-exhaustion shapes (huge range spans, huge factorials) are excluded by construction and counted; the WASM evaluate glue cannot run natively.",
          "4/C01"),
  "C02": ("differential PBT: re-run / fresh-process / shifted-heap evaluation and let-abstraction metamorphic relation on generated programs",
